@@ -280,6 +280,18 @@ pub fn run(ctx: &Ctx) {
                     *acc += cmp.same("values", &base, &[xml(&set_values(&n, a, t))], i, json!(null));
                 }
             }
+            // every value different from every other (the base document uses one value everywhere)
+            {
+                let mut d = n.clone();
+                let mut counter = 0usize;
+                crate::docspace::decorate(&mut d, &mut counter);
+                *acc += cmp.same("values", &base, &[xml(&d)], i, json!(null));
+            }
+            // long values with a multi-byte character around byte 64 / 256
+            for cut in [60usize, 63, 64, 65, 250, 255, 256, 257] {
+                let long = format!("{}é√{}", "x".repeat(cut), "y".repeat(8));
+                *acc += cmp.same("values", &base, &[xml(&set_values(&n, &long, &long))], i, json!(null));
+            }
             // text replaced by a reference to an entity declared in the DOCTYPE
             let dt = vec![Misc::DocType("r [<!ENTITY e \"v\">]".into())];
             let with_dt = |m: &Node| Doc { prolog: dt.clone(), root: Some(m.clone()), epilog: vec![] }.to_xml();
